@@ -14,7 +14,12 @@ unserved = {7:'set_log_fd',19:'send_rarp',20:'net_set_mtu',22:'iotlb_msg',23:'se
  27:'close_crypto',28:'postcopy_advise',29:'postcopy_listen',30:'postcopy_end',35:'vring_kick',39:'set_status',40:'get_status'}
 STUBS='stubs="vmm-sys-util raw_recvmsg/raw_sendmsg (ghost stream socket), libc::close + OwnedFd::drop (ghost descriptor table), handle_alloc_error (assume false)"'
 def line(name, code, flags, delta, variant, tier, what, props="C02,C03,C04,C05,C07,C09", tf=""):
-    return (f'// @harness props={props} tier={tier}{tf} reach=off timeout=400 bound="{what}; body bytes, 0..=2 attached descriptors, '
+    # GET_CONFIG: 20 s on the unchanged tree, but a change that makes the reply payload length depend on the
+    # body's size word costs CBMC ~300 s before the counterexample is out (seeded/C03-b): generous timeout
+    tmo = 1200 if code == 24 else 400
+    # ... and ~20 GB; the concrete-size variants get their own memory class so that they can finish
+    mem = " mem=28" if (code == 24 and variant & 0x200) else ""
+    return (f'// @harness props={props} tier={tier}{tf} reach=off timeout={tmo}{mem} bound="{what}; body bytes, 0..=2 attached descriptors, '
             f'three 64-bit negotiation words and handler outcome symbolic; one request" {STUBS}\n'
             f'e_be!({name}, {code}, {hex(flags)}, {delta}, {variant});\n')
 out=[]
